@@ -56,18 +56,18 @@ StepImpl ==
        THEN LET u == EUpdate(cfg, s, r.c)
             IN s' = u.s /\ ph' = (IF u.ok THEN "run" ELSE "err")
                /\ h' = [h EXCEPT ![r.c] = Append(@, u.log)]
-       ELSE s' = s /\ ph' = "circ" /\ h' = h
+       ELSE s' = s /\ ph' = (IF r.r = "findep" THEN "err" ELSE "circ") /\ h' = h
   /\ UNCHANGED <<cfg, ref>>
 
 StepAbs ==
   /\ ph = "run" /\ MayUpdate(cfg, s)
   /\ \/ \E c \in TimeComps(cfg) :
-          /\ AllowedChoice(cfg, s, c) /\ Available(cfg, s, c)
+          /\ AllowedChoice(cfg, s, c) /\ Available(cfg, s, c) /\ ~Finished(cfg, s, c)
           /\ LET u == EUpdate(cfg, s, c)
              IN s' = u.s /\ ph' = (IF u.ok THEN "run" ELSE "err")
                 /\ h' = [h EXCEPT ![c] = Append(@, u.log)]
      \/ /\ ~\E c \in TimeComps(cfg) : AllowedChoice(cfg, s, c) /\ Available(cfg, s, c)
-        /\ s' = s /\ ph' = "circ" /\ h' = h
+        /\ s' = s /\ ph' = (IF FinishedDependency(cfg, s) THEN "err" ELSE "circ") /\ h' = h
   /\ UNCHANGED <<cfg, ref>>
 
 Next == (IF Mode = "impl" THEN StepImpl ELSE StepAbs) \/ Finish
@@ -85,6 +85,7 @@ OnlyAllowedChoices == [][\A c \in TimeComps(cfg) : Updated(c) => AllowedChoice(c
 (* C03 *)
 Monotone == [][\A c \in TimeComps(cfg) : s'.time[c] >= s.time[c]]_vars
 NoLateUpdate == [][(\E c \in TimeComps(cfg) : Updated(c)) => MayUpdate(cfg, s)]_vars
+NoUpdateAfterFinished == [][\A c \in TimeComps(cfg) : Updated(c) => ~Finished(cfg, s, c)]_vars
 EndReached == ph = "done" => AllReached(cfg, s)
 Terminates == <>(ph \in {"done", "circ", "err"})
 (* C04 *)
